@@ -27,7 +27,7 @@ REQUIRED_REACH = ['one-middleware-class-several-instances', 'middleware-types-re
                   'fail:kth-of-subapp', 'fail:kth-of-subapp:k>1', 'index:negative', 'index:overshooting', 'index:negative-multi',
                   'route-bound-into>=2-apps', 'embedded-app-used-directly-later', 'probes-compared', 'fingerprints-compared', 'app-with-render-factory',
                   'embedded-route-with-render-arg', 'renderer-compared', 'non-canonical-probe', 'add-without-inheriting-slashes',
-                  'embed-without-inheriting-slashes', 'prefix-outside-ascii']
+                  'embed-without-inheriting-slashes', 'prefix-outside-ascii', 'subapplication-object-reused']
 NSHARDS = 16
 PATTERNS = ['/a', '/a/<x>', '/<x>', '/b', '/a/b', '/c/<y>', '/<x>/<y>', '/d']
 BEHS = ['ok', 'ok', 'ok', 'raise_nb_404', 'return_nb_403', 'raise_403', 'uncaught']
@@ -59,6 +59,16 @@ class World(object):
             except Exception:
                 pass
             return r
+
+        def wsgi_wrapper(self_, wsgi_app):
+            # the middleware also wraps the WSGI callable of the application it is installed in (at construction): every
+            # answer of *that* application - errors included - passes through it, no other application's does
+            def wrapped(environ, start_response):
+                def sr(status, headers, exc_info=None):
+                    return start_response(status, list(headers) + [('X-WSGI', self_.label)], exc_info) if exc_info else \
+                        start_response(status, list(headers) + [('X-WSGI', self_.label)])
+                return wsgi_app(environ, sr)
+            return wrapped
         self.__dict__.setdefault('mw_type', {})
         if getattr(self, 'stamp_classes', None) and self.rng.chance(0.25):
             # another instance of a class some other application uses already: where both meet on a route, the one of the
@@ -75,7 +85,7 @@ class World(object):
         if getattr(self, 'stamp_classes', None) and self.rng.chance(0.5):
             base = self.rng.pick(self.stamp_classes)
             self.sh.hit('middleware-types-related-by-inheritance')
-        cls = type('Stamp_%s' % label, (base,), {'request': request})
+        cls = type('Stamp_%s' % label, (base,), {'request': request, 'wsgi_wrapper': wsgi_wrapper})
         self.__dict__.setdefault('stamp_classes', []).append(cls)
         inst = cls()
         inst.label = label
@@ -241,7 +251,16 @@ class World(object):
         idx = self.pick_index(target, multi=len(inner['table']) > 1)
         kw = {} if idx is None else {'index': idx}
         inherit = True
-        if self.rng.chance(0.5):
+        reusable = [sa for sa in getattr(self, 'subapps', []) if sa['inner'] is not target and sa['inner'] in self.apps]
+        if reusable and self.rng.chance(0.35):
+            # the same SubApplication *object* used for another embedding: it embeds the application as it is now
+            sa = self.rng.pick(reusable)
+            inner, prefix, inherit, entry = sa['inner'], sa['prefix'], sa['inherit'], sa['obj']
+            conflict = 'y' in target['resources'] and any('y>' in e['pattern'] for e in inner['table'])
+            idx = self.pick_index(target, multi=len(inner['table']) > 1)
+            kw = {} if idx is None else {'index': idx}
+            self.sh.hit('subapplication-object-reused')
+        elif self.rng.chance(0.5):
             entry = (prefix, inner['app'])
         else:
             # an embedding may opt out of the target's slash mode: the embedded routes keep theirs - this embedding only
@@ -249,6 +268,7 @@ class World(object):
             entry = SubApplication(prefix, inner['app']) if inherit and self.rng.chance(0.5) else SubApplication(prefix, inner['app'], inherit_slashes=inherit)
             if not inherit:
                 self.sh.hit('embed-without-inheriting-slashes')
+            self.__dict__.setdefault('subapps', []).append({'obj': entry, 'inner': inner, 'prefix': prefix, 'inherit': inherit})
         before = self.snapshot()
         if conflict:
             k = [i for i, e in enumerate(inner['table']) if 'y>' in e['pattern']][0] + 1
@@ -374,6 +394,8 @@ class World(object):
                 problem = None
                 if ex.exc is not None:
                     problem = 'escaped %s' % probe.safe_repr(ex.exc)
+                elif sorted(ex.header_all('X-WSGI')) != sorted(a['mws']):
+                    problem = 'the answer passed through the WSGI wrappers of %r, this application was constructed with the middlewares %r' % (ex.header_all('X-WSGI'), a['mws'])
                 elif ran != exp['executed']:
                     problem = 'endpoints ran %r, model says %r' % (ran, exp['executed'])
                 elif ex.status != exp['status']:
